@@ -92,27 +92,21 @@ PadParse(pr) == E!ParseRaw(pr.d, pr.n)
 PadContents(pr) == E!ExtContents(pr.d, pr.n)          \* sequence of [id, frame, data]
 Strip(list) == [i \in 1..Len(list) |-> [id |-> list[i].id, data |-> list[i].data]]
 
-\* packets whose first frame lies in the selection
-Starts(rp, b, e) == {j \in (b + 1)..e : rp.pads[j].n > 0}
-\* the padding of such a packet is not a well-formed extension list
-SelBadExt(rp, b, e) == \E j \in Starts(rp, b, e) : ~PadParse(rp.pads[j]).ok
-\* such a packet carries at least one extension
-SelHasExt(rp, b, e) == \E j \in Starts(rp, b, e) : Len(PadParse(rp.pads[j]).exts) > 0
-\* such a packet carries an extension that belongs to a frame at or beyond e
-SelExtOutside(rp, b, e) ==
-  \E j \in Starts(rp, b, e) : \E x \in 1..Len(PadParse(rp.pads[j]).exts) :
-      j + PadParse(rp.pads[j]).exts[x].frame > e
+\* a selected frame comes from a packet whose padding is not a well-formed extension list
+\* (such a packet is valid RFC 6716 framing; its padding carries nothing)
+SelBadExt(rp, b, e) == \E i \in (b + 1)..e : ~PadParse(rp.pads[SrcStart(rp, i)]).ok
 
 (* What the selected frame k (0-based within the selection) carries: the    *)
-(* extensions its source packet attaches to it, in bitstream order.          *)
+(* extensions its source packet attaches to it, in bitstream order -- also   *)
+(* when the selection cuts that packet (original frame j of a packet whose   *)
+(* first frame sits at position p goes to output frame p + j - b and is kept *)
+(* iff b <= p + j < e).  Malformed padding carries nothing.                  *)
 NaturalExts(rp, b, k) ==
   LET i == b + 1 + k
       j == SrcStart(rp, i)
       pr == rp.pads[j] IN
   IF ~PadParse(pr).ok THEN <<>>
   ELSE Strip(E!ExtsOfFrame(PadContents(pr), i - j))
-\* the source packet of selected frame k starts inside the selection
-StartsInside(rp, b, k) == SrcStart(rp, b + 1 + k) >= b + 1
 
 \* all extensions the model output carries: [id, frame, data], frame order
 RECURSIVE CarriedFrom(_, _, _, _)
@@ -121,6 +115,8 @@ CarriedFrom(rp, b, k, cnt) ==
   ELSE LET x == NaturalExts(rp, b, k) IN
        [i \in 1..Len(x) |-> [id |-> x[i].id, frame |-> k, data |-> x[i].data]] \o CarriedFrom(rp, b, k + 1, cnt)
 Carried(rp, b, e) == CarriedFrom(rp, b, 0, e - b)
+\* the selection carries at least one extension
+SelHasExt(rp, b, e) == Carried(rp, b, e) # <<>>
 
 \* least total padding amount whose padding bytes hold L bytes of extensions
 AmountFor(L) == CHOOSE A \in (L + 1)..(L + L \div 254 + 2) :
@@ -160,14 +156,14 @@ RECURSIVE NaiveExtBytes(_)
 NaiveExtBytes(list) ==
   IF list = <<>> THEN 0
   ELSE LET d == Len(Head(list).data) IN 2 + 1 + (d \div 255 + 1) + d + 1 + NaiveExtBytes(Tail(list))
-\* every extension of a packet whose first frame is selected (what an implementation may try to carry)
-RECURSIVE AllStartExts(_, _, _)
-AllStartExts(rp, j, e) ==
-  IF j > e THEN <<>>
-  ELSE (IF rp.pads[j].n > 0 THEN E!XContentsOf(rp.pads[j].d, PadParse(rp.pads[j]).exts) ELSE <<>>) \o AllStartExts(rp, j + 1, e)
+RECURSIVE SumData(_)
+SumData(list) == IF list = <<>> THEN 0 ELSE Len(Head(list).data) + SumData(Tail(list))
 NeedUpper(rp, b, e) ==
-  LET x == NaiveExtBytes(AllStartExts(rp, b + 1, e)) IN
+  LET x == NaiveExtBytes(Carried(rp, b, e)) IN
   Enc(rp.cfg, SizesOf(Sel(rp, b, e)), FALSE, 0, TRUE).len + x + x \div 254 + 2
+\* and a lower bound: code 3, one padding length byte, one id byte, every payload byte
+NeedLower(rp, b, e) ==
+  Enc(rp.cfg, SizesOf(Sel(rp, b, e)), FALSE, 0, TRUE).len + 2 + SumData(Carried(rp, b, e))
 
 -----------------------------------------------------------------------------
 (* stateless: pad, unpad and their multistream forms.  pk is a wire packet,  *)
